@@ -263,6 +263,213 @@ func runC18(c *Ctx) {
 		}
 	}
 	if !foundW {
+		// the general form: the header is any expression that flattens to the template
+		//   "Content-Length" ": " <decimal len(X)> "\r\n\r\n"
+		// (concatenation, Sprintf, strconv.Itoa / FormatInt, conversions, a local variable), and X is written after it:
+		// appended to it, next to it in a list of parts that is written in order, or by a later Write
+		type tpart struct {
+			konst string
+			lenOf types.Object
+			other string
+		}
+		for _, fd := range allFuncDecls(p) {
+			if fd.Body == nil || foundW {
+				continue
+			}
+			assigned := map[types.Object]ast.Expr{}
+			ast.Inspect(fd.Body, func(n ast.Node) bool {
+				if as, ok := n.(*ast.AssignStmt); ok && len(as.Lhs) == len(as.Rhs) {
+					for i, l := range as.Lhs {
+						if id, ok := l.(*ast.Ident); ok {
+							assigned[info.ObjectOf(id)] = as.Rhs[i]
+						}
+					}
+				}
+				return true
+			})
+			var flat func(e ast.Expr, depth int) []tpart
+			flat = func(e ast.Expr, depth int) []tpart {
+				e = ast.Unparen(e)
+				if sv, ok := constString(info, e); ok {
+					return []tpart{{konst: sv}}
+				}
+				if depth > 6 {
+					return []tpart{{other: types.ExprString(e)}}
+				}
+				switch x := e.(type) {
+				case *ast.BinaryExpr:
+					if x.Op == token.ADD {
+						return append(flat(x.X, depth+1), flat(x.Y, depth+1)...)
+					}
+				case *ast.Ident:
+					if b, ok := assigned[info.ObjectOf(x)]; ok {
+						return flat(b, depth+1)
+					}
+				case *ast.CallExpr:
+					if tv, ok := info.Types[x.Fun]; ok && tv.IsType() && len(x.Args) == 1 {
+						return flat(x.Args[0], depth+1)
+					}
+					lenArg := func(a ast.Expr) types.Object {
+						a = ast.Unparen(a)
+						if conv, ok := a.(*ast.CallExpr); ok && len(conv.Args) == 1 {
+							if tv, ok := info.Types[conv.Fun]; ok && tv.IsType() {
+								a = ast.Unparen(conv.Args[0])
+							}
+						}
+						if lc, ok := a.(*ast.CallExpr); ok && len(lc.Args) == 1 {
+							if id, ok := lc.Fun.(*ast.Ident); ok && id.Name == "len" {
+								if aid, ok := ast.Unparen(lc.Args[0]).(*ast.Ident); ok {
+									return info.ObjectOf(aid)
+								}
+							}
+						}
+						return nil
+					}
+					if fn := calleeOf(info, x); fn != nil {
+						switch fullName(fn) {
+						case "strconv.Itoa", "strconv.FormatInt", "strconv.FormatUint":
+							if o := lenArg(x.Args[0]); o != nil {
+								return []tpart{{lenOf: o}}
+							}
+						case "fmt.Sprintf", "fmt.Appendf":
+							fi := 0
+							if fn.Name() == "Appendf" {
+								fi = 1
+							}
+							if format, ok := constString(info, x.Args[fi]); ok {
+								var out []tpart
+								args := x.Args[fi+1:]
+								ai := 0
+								lit := ""
+								for i := 0; i < len(format); i++ {
+									if format[i] == '%' && i+1 < len(format) && strings.ContainsRune("svd", rune(format[i+1])) && ai < len(args) {
+										if lit != "" {
+											out = append(out, tpart{konst: lit})
+											lit = ""
+										}
+										if o := lenArg(args[ai]); o != nil {
+											out = append(out, tpart{lenOf: o})
+										} else {
+											out = append(out, flat(args[ai], depth+1)...)
+										}
+										ai++
+										i++
+										continue
+									}
+									lit += string(format[i])
+								}
+								if lit != "" {
+									out = append(out, tpart{konst: lit})
+								}
+								return out
+							}
+						}
+					}
+				}
+				return []tpart{{other: types.ExprString(e)}}
+			}
+			ast.Inspect(fd.Body, func(n ast.Node) bool {
+				e, ok := n.(ast.Expr)
+				if !ok || foundW {
+					return true
+				}
+				// candidate: an assignment's right-hand side or a call argument whose flattening starts with the header name
+				parts := flat(e, 0)
+				if len(parts) < 3 || !strings.HasPrefix(parts[0].konst, "Content-Length") {
+					return true
+				}
+				// merge constants
+				var merged []tpart
+				for _, pt := range parts {
+					if pt.konst != "" && len(merged) > 0 && merged[len(merged)-1].lenOf == nil && merged[len(merged)-1].other == "" {
+						merged[len(merged)-1].konst += pt.konst
+						continue
+					}
+					merged = append(merged, pt)
+				}
+				foundW = true
+				key := funcKey(p, fd)
+				okT := len(merged) == 3 && merged[0].konst == "Content-Length: " && merged[1].lenOf != nil && merged[2].konst == "\r\n\r\n"
+				var desc []string
+				for _, pt := range merged {
+					switch {
+					case pt.lenOf != nil:
+						desc = append(desc, "len("+pt.lenOf.Name()+")")
+					case pt.other != "":
+						desc = append(desc, "‹"+pt.other+"›")
+					default:
+						desc = append(desc, fmt.Sprintf("%q", pt.konst))
+					}
+				}
+				c.check(okT, "C18.R2", key+"|header-template", c.pos(e.Pos()), "the header is "+strings.Join(desc, " + "),
+					fmt.Sprintf("the frame header is %s, not \"Content-Length: \" + len(<data>) + CRLF CRLF", strings.Join(desc, " + ")))
+				if !okT || merged[1].lenOf == nil {
+					return false
+				}
+				data := merged[1].lenOf
+				// the header's holder (a local variable), if any
+				var holder types.Object
+				if id, ok := ast.Unparen(e).(*ast.Ident); ok {
+					holder = info.ObjectOf(id)
+				}
+				for o, b := range assigned {
+					if ast.Unparen(b) == ast.Unparen(e) || b == e {
+						holder = o
+					}
+				}
+				isHeader := func(a ast.Expr) bool {
+					a = ast.Unparen(a)
+					if a == e {
+						return true
+					}
+					if id, ok := a.(*ast.Ident); ok && holder != nil && info.ObjectOf(id) == holder {
+						return true
+					}
+					found := false
+					ast.Inspect(a, func(m ast.Node) bool {
+						if m == ast.Node(e) {
+							found = true
+						}
+						return true
+					})
+					return found
+				}
+				isData := func(a ast.Expr) bool {
+					id, ok := ast.Unparen(a).(*ast.Ident)
+					return ok && info.ObjectOf(id) == data
+				}
+				follows := ""
+				fc := newFnCFG(fd.Body, info)
+				var headerWrite *ast.CallExpr
+				ast.Inspect(fd.Body, func(m ast.Node) bool {
+					switch y := m.(type) {
+					case *ast.CallExpr:
+						if id, ok := y.Fun.(*ast.Ident); ok && id.Name == "append" && y.Ellipsis.IsValid() && len(y.Args) == 2 && isHeader(y.Args[0]) && isData(y.Args[1]) {
+							follows = "appended to the header"
+						}
+						if se, ok := y.Fun.(*ast.SelectorExpr); ok && se.Sel.Name == "Write" && len(y.Args) == 1 {
+							if isHeader(y.Args[0]) {
+								headerWrite = y
+							}
+							if isData(y.Args[0]) && headerWrite != nil && fc.dominates(headerWrite, y) {
+								follows = "written by a later Write that the header write dominates"
+							}
+						}
+					case *ast.CompositeLit:
+						if len(y.Elts) == 2 && isHeader(y.Elts[0]) && isData(y.Elts[1]) {
+							// [][]byte{header, data}: ranged over, each part written
+							follows = "second in the list of parts written in order"
+						}
+					}
+					return true
+				})
+				c.check(follows != "", "C18.R2", key+"|body-is-measured-slice", c.pos(e.Pos()), "the slice measured for the header is "+follows,
+					"the byte slice written after the header is not the one whose length the header announced")
+				return false
+			})
+		}
+	}
+	if !foundW {
 		c.viol("C18.R2", "anchor-lost:framed-writer", "", "no function writes a Content-Length header")
 	}
 
@@ -317,62 +524,132 @@ func runC18(c *Ctx) {
 		})
 		c.check(mk != nil && lenObj != nil, "C18.R3", key+"|buffer-is-make-length", c.pos(rf.Pos()), "the body buffer is make([]byte, <length>) with a plain variable",
 			"the buffer filled by io.ReadFull is not make([]byte, <length variable>)")
+		// the header may be read by a package-local helper that returns the length: the facts about the length are then
+		// looked for in the helper as well (for the variable it returns in that position)
+		type unitFn struct {
+			fd     *ast.FuncDecl
+			lenObj types.Object
+			fc     *fnCFG
+		}
+		unit := []unitFn{{fd, lenObj, fc}}
+		if lenObj != nil {
+			ast.Inspect(fd.Body, func(n ast.Node) bool {
+				as, ok := n.(*ast.AssignStmt)
+				if !ok || len(as.Rhs) != 1 {
+					return true
+				}
+				call, ok := as.Rhs[0].(*ast.CallExpr)
+				if !ok {
+					return true
+				}
+				hfn := calleeOf(info, call)
+				if hfn == nil || hfn.Pkg() != p.Types {
+					return true
+				}
+				for i, l := range as.Lhs {
+					if id, ok := l.(*ast.Ident); ok && info.ObjectOf(id) == lenObj {
+						for _, hfd := range allFuncDecls(p) {
+							if info.Defs[hfd.Name] != types.Object(hfn) || hfd.Body == nil {
+								continue
+							}
+							var hLen types.Object
+							if hfd.Type.Results != nil {
+								k := 0
+								for _, r := range hfd.Type.Results.List {
+									for _, nm := range r.Names {
+										if k == i {
+											hLen = info.Defs[nm]
+										}
+										k++
+									}
+								}
+							}
+							ast.Inspect(hfd.Body, func(m ast.Node) bool {
+								if ret, ok := m.(*ast.ReturnStmt); ok && i < len(ret.Results) {
+									if rid, ok := ast.Unparen(ret.Results[i]).(*ast.Ident); ok {
+										if v, isVar := info.ObjectOf(rid).(*types.Var); isVar {
+											hLen = v
+										}
+									}
+								}
+								return true
+							})
+							if hLen != nil {
+								unit = append(unit, unitFn{hfd, hLen, newFnCFG(hfd.Body, info)})
+							}
+						}
+					}
+				}
+				return true
+			})
+		}
 		if lenObj != nil {
 			// length parsed from the header by strconv.ParseInt/Atoi
 			parsed := false
 			var guards []ast.Node
-			ast.Inspect(fd.Body, func(n ast.Node) bool {
-				switch n := n.(type) {
-				case *ast.AssignStmt:
-					for i, l := range n.Lhs {
-						if id, ok := l.(*ast.Ident); ok && info.ObjectOf(id) == lenObj && len(n.Rhs) == 1 && i == 0 {
-							if call, ok := n.Rhs[0].(*ast.CallExpr); ok {
-								if fn := calleeOf(info, call); fn != nil && strings.HasPrefix(fullName(fn), "strconv.") {
-									parsed = true
+			guardDominatesAlloc := map[ast.Node]bool{}
+			for ui, u := range unit {
+				fd, lenObj, fc := u.fd, u.lenObj, u.fc
+				_ = fc
+				ast.Inspect(fd.Body, func(n ast.Node) bool {
+					switch n := n.(type) {
+					case *ast.AssignStmt:
+						for i, l := range n.Lhs {
+							if id, ok := l.(*ast.Ident); ok && info.ObjectOf(id) == lenObj && len(n.Rhs) == 1 && i == 0 {
+								if call, ok := n.Rhs[0].(*ast.CallExpr); ok {
+									if fn := calleeOf(info, call); fn != nil && strings.HasPrefix(fullName(fn), "strconv.") {
+										parsed = true
+									}
+								}
+							}
+						}
+					case *ast.IfStmt:
+						// if length <= 0 / == 0 { return …error }
+						be, ok := n.Cond.(*ast.BinaryExpr)
+						if !ok {
+							return true
+						}
+						if id, ok := be.X.(*ast.Ident); ok && info.ObjectOf(id) == lenObj && types.ExprString(be.Y) == "0" {
+							if len(n.Body.List) > 0 {
+								if ret, ok := n.Body.List[len(n.Body.List)-1].(*ast.ReturnStmt); ok && len(ret.Results) > 0 && types.ExprString(ret.Results[len(ret.Results)-1]) != "nil" {
+									if be.Op == token.LEQ || be.Op == token.LSS || be.Op == token.EQL {
+										guards = append(guards, n)
+										if ui > 0 || (mk != nil && fc.dominates(n, mk)) {
+											guardDominatesAlloc[n] = true // a rejection inside the header helper precedes the allocation in the caller
+										}
+									}
 								}
 							}
 						}
 					}
-				case *ast.IfStmt:
-					// if length <= 0 / == 0 { return …error }
-					be, ok := n.Cond.(*ast.BinaryExpr)
-					if !ok {
-						return true
-					}
-					if id, ok := be.X.(*ast.Ident); ok && info.ObjectOf(id) == lenObj && types.ExprString(be.Y) == "0" {
-						if len(n.Body.List) > 0 {
-							if ret, ok := n.Body.List[len(n.Body.List)-1].(*ast.ReturnStmt); ok && len(ret.Results) > 0 && types.ExprString(ret.Results[len(ret.Results)-1]) != "nil" {
-								if be.Op == token.LEQ || be.Op == token.LSS || be.Op == token.EQL {
-									guards = append(guards, n)
-								}
-							}
-						}
-					}
-				}
-				return true
-			})
+					return true
+				})
+			}
 			c.check(parsed, "C18.R3", key+"|length-parsed-from-header", c.pos(fd.Pos()), "length comes from strconv parsing of the header value", "the body length is no longer parsed from the header value")
 			// the announced length has an upper bound before it sizes an allocation: a 32-bit parse, or an explicit test
 			bounded := ""
-			ast.Inspect(fd.Body, func(n ast.Node) bool {
-				switch n := n.(type) {
-				case *ast.CallExpr:
-					if fn := calleeOf(info, n); fn != nil && (fullName(fn) == "strconv.ParseInt" || fullName(fn) == "strconv.ParseUint") && len(n.Args) == 3 {
-						if v, ok := constInt(info, n.Args[2]); ok && v > 0 && v <= 32 {
-							bounded = fmt.Sprintf("parsed with bitSize %d", v)
+			for ui, u := range unit {
+				fd, lenObj, fc := u.fd, u.lenObj, u.fc
+				ast.Inspect(fd.Body, func(n ast.Node) bool {
+					switch n := n.(type) {
+					case *ast.CallExpr:
+						if fn := calleeOf(info, n); fn != nil && (fullName(fn) == "strconv.ParseInt" || fullName(fn) == "strconv.ParseUint") && len(n.Args) == 3 {
+							if v, ok := constInt(info, n.Args[2]); ok && v > 0 && v <= 32 {
+								bounded = fmt.Sprintf("parsed with bitSize %d", v)
+							}
 						}
-					}
-				case *ast.IfStmt:
-					if be, ok := n.Cond.(*ast.BinaryExpr); ok && (be.Op == token.GTR || be.Op == token.GEQ) {
-						if id, ok := be.X.(*ast.Ident); ok && info.ObjectOf(id) == lenObj && mk != nil && fc.dominates(n, mk) && len(n.Body.List) > 0 {
-							if _, isRet := n.Body.List[len(n.Body.List)-1].(*ast.ReturnStmt); isRet {
-								bounded = "explicit upper bound " + types.ExprString(n.Cond)
+					case *ast.IfStmt:
+						if be, ok := n.Cond.(*ast.BinaryExpr); ok && (be.Op == token.GTR || be.Op == token.GEQ) {
+							if id, ok := be.X.(*ast.Ident); ok && info.ObjectOf(id) == lenObj && (ui > 0 || mk != nil && fc.dominates(n, mk)) && len(n.Body.List) > 0 {
+								if _, isRet := n.Body.List[len(n.Body.List)-1].(*ast.ReturnStmt); isRet {
+									bounded = "explicit upper bound " + types.ExprString(n.Cond)
+								}
 							}
 						}
 					}
-				}
-				return true
-			})
+					return true
+				})
+			}
 			c.check(bounded != "", "C18.R3", key+"|length-has-upper-bound", c.pos(fd.Pos()), "the announced length is bounded: "+bounded,
 				"the Content-Length value is parsed without an upper bound (64-bit parse, no maximum test) and sizes make([]byte, length) directly: a header such as Content-Length: 9223372036854775807 panics the reader (makeslice: len out of range) instead of producing an error")
 			// a rejection of length == 0 (missing header) must dominate make; a rejection of negative length must exist
@@ -380,7 +657,7 @@ func runC18(c *Ctx) {
 			for _, gd := range guards {
 				is := gd.(*ast.IfStmt)
 				be := is.Cond.(*ast.BinaryExpr)
-				if (be.Op == token.EQL || be.Op == token.LEQ) && mk != nil && fc.dominates(is, mk) {
+				if (be.Op == token.EQL || be.Op == token.LEQ) && guardDominatesAlloc[gd] {
 					domZero = true
 				}
 				if be.Op == token.LEQ || be.Op == token.LSS {
@@ -405,28 +682,31 @@ func runC18(c *Ctx) {
 		})
 		c.check(okErr, "C18.R3", key+"|short-read-is-error", c.pos(rf.Pos()), "a short read returns an error", "the error of io.ReadFull is not returned: truncated frames would be decoded")
 		// header-line slices are dominated by the colon<0 rejection
-		var colonGuard *ast.IfStmt
-		ast.Inspect(fd.Body, func(n ast.Node) bool {
-			if is, ok := n.(*ast.IfStmt); ok {
-				if be, ok := is.Cond.(*ast.BinaryExpr); ok && be.Op == token.LSS && types.ExprString(be.Y) == "0" && len(is.Body.List) > 0 {
-					if _, isRet := is.Body.List[len(is.Body.List)-1].(*ast.ReturnStmt); isRet {
-						colonGuard = is
-					}
-				}
-			}
-			return true
-		})
 		nslice := 0
 		okSlice := true
-		ast.Inspect(fd.Body, func(n ast.Node) bool {
-			if sl, ok := n.(*ast.SliceExpr); ok {
-				nslice++
-				if colonGuard == nil || !fc.dominates(colonGuard, sl) {
-					okSlice = false
+		for _, u := range unit {
+			fd, fc := u.fd, u.fc
+			var colonGuard *ast.IfStmt
+			ast.Inspect(fd.Body, func(n ast.Node) bool {
+				if is, ok := n.(*ast.IfStmt); ok {
+					if be, ok := is.Cond.(*ast.BinaryExpr); ok && be.Op == token.LSS && types.ExprString(be.Y) == "0" && len(is.Body.List) > 0 {
+						if _, isRet := is.Body.List[len(is.Body.List)-1].(*ast.ReturnStmt); isRet {
+							colonGuard = is
+						}
+					}
 				}
-			}
-			return true
-		})
+				return true
+			})
+			ast.Inspect(fd.Body, func(n ast.Node) bool {
+				if sl, ok := n.(*ast.SliceExpr); ok {
+					nslice++
+					if colonGuard == nil || !fc.dominates(colonGuard, sl) {
+						okSlice = false
+					}
+				}
+				return true
+			})
+		}
 		c.check(okSlice && nslice >= 1, "C18.R3", key+"|header-slices-guarded", c.pos(fd.Pos()), fmt.Sprintf("%d slice expressions dominated by the `< 0` rejection", nslice),
 			"a header line is sliced at the colon index without the `colon < 0` rejection dominating it: a header line without ':' panics")
 	}
@@ -852,30 +1132,38 @@ func decoderNotStricterThanEncoder(c *Ctx, rule string) {
 		c.viol(rule, "anchor-lost:wire-struct", "", "DecodeMessage does not decode into a struct with omitempty fields")
 		return
 	}
+	// over the paths of the decoder: a path that returns an error took no condition on an optional field
 	n := 0
-	ast.Inspect(fd.Body, func(x ast.Node) bool {
-		is, ok := x.(*ast.IfStmt)
-		if !ok || len(is.Body.List) == 0 {
-			return true
+	den := &denum{info: info, pkg: p.Types, inits: map[types.Object]ast.Expr{}, limit: 20000, opaqueLoops: true}
+	den.finish(den.run(fd.Body.List, []dstate{{env: map[types.Object]ast.Expr{}}}))
+	if den.undecided != "" {
+		c.undec(rule, funcKey(p, fd)+"|rejections", c.pos(fd.Pos()), "DecodeMessage contains "+den.undecided)
+		return
+	}
+	seenRet := map[*ast.ReturnStmt]int{}
+	for _, pth := range den.paths {
+		if pth.Ret == nil || len(pth.Ret.Results) != 2 || types.ExprString(pth.Ret.Results[1]) == "nil" {
+			continue
 		}
-		ret, ok := is.Body.List[len(is.Body.List)-1].(*ast.ReturnStmt)
-		if !ok || len(ret.Results) != 2 || types.ExprString(ret.Results[1]) == "nil" {
-			return true
+		if _, dup := seenRet[pth.Ret]; !dup {
+			n++
+			seenRet[pth.Ret] = n
 		}
-		n++
-		bad := ""
-		ast.Inspect(is.Cond, func(y ast.Node) bool {
-			if se, ok := y.(*ast.SelectorExpr); ok {
-				if f := fieldOf(info, se); f != nil && optional[f] {
-					bad = f.Name()
+		bad, conds := "", []string{}
+		for _, pc := range pth.Conds {
+			conds = append(conds, fmt.Sprintf("%s=%v", types.ExprString(pc.Expr), pc.Val))
+			ast.Inspect(pc.Expr, func(y ast.Node) bool {
+				if se, ok := y.(*ast.SelectorExpr); ok {
+					if f := fieldOf(info, se); f != nil && optional[f] {
+						bad = f.Name()
+					}
 				}
-			}
-			return true
-		})
-		c.check(bad == "", rule, fmt.Sprintf("%s|rejection#%d|not-on-optional-field", funcKey(p, fd), n), c.pos(is.Pos()), "rejects on `"+types.ExprString(is.Cond)+"`, which the encoder never produces",
-			fmt.Sprintf("DecodeMessage rejects a frame on `%s`: %s is optional on the wire, and this package's own writer leaves it null (a successful response with a nil result is written as \"result\":null, e.g. the reply to LSP shutdown). Such a frame can then not be read back: the connection's reader fails and the pending call hangs until its context ends", types.ExprString(is.Cond), bad))
-		return true
-	})
+				return true
+			})
+		}
+		c.check(bad == "", rule, fmt.Sprintf("%s|rejection#%d|not-on-optional-field", funcKey(p, fd), seenRet[pth.Ret]), c.pos(pth.Ret.Pos()), "rejects on ["+strings.Join(conds, ", ")+"], which the encoder never produces",
+			fmt.Sprintf("DecodeMessage rejects a frame on [%s]: %s is optional on the wire, and this package's own writer leaves it null (a successful response with a nil result is written as \"result\":null, a call without parameters has no params): the reader cannot read what the writer of the same package sends", strings.Join(conds, ", "), bad))
+	}
 	c.count("decoder_rejections", n)
 	c.floor(rule, 2)
 }
